@@ -85,8 +85,17 @@ def parse_vspec(path):
             c.setdefault("inserts", []).append(ins)
         buf = []
 
-    with open(path) as f:
-        for raw in f:
+    def _lines(pth):
+        with open(pth) as f:
+            for raw in f:
+                m = re.match(r"^@include\s+(\S+)", raw)
+                if m:
+                    yield from _lines(os.path.normpath(os.path.join(os.path.dirname(pth), m.group(1))))
+                else:
+                    yield raw
+
+    if True:
+        for raw in _lines(path):
             line = raw.rstrip("\n")
             if line.startswith("## fn "):
                 flush()
